@@ -13,6 +13,7 @@ import (
 	"sort"
 	"strconv"
 	"strings"
+	"sync"
 	"testing"
 	"testing/synctest"
 	"time"
@@ -34,6 +35,7 @@ const (
 	Delete
 	Restart
 	Reopen
+	StopSync // Stop racing with a concurrent Sync, then Start (model: Restart)
 )
 
 type Fail struct {
@@ -56,6 +58,7 @@ type Config struct {
 	ProbeEvery           bool
 	Ranges               int // random GetRange probes per probe
 	Crash                int // number of write-log prefixes to reopen (0 = none, <0 = all)
+	FailHdrFrom, FailHdrN int // transient failures of flush commits (FailHdrN = 0: none)
 }
 
 // Gen decides the next op given the current head/tail heights (0,0 = empty) and the step index.
@@ -74,6 +77,9 @@ type Result struct {
 	CrashTerm string // Coq [ccase] term (when cfg.Crash != 0)
 	LogLen    int
 	CrashPts  int
+	Rushed    int // appends immediately followed by the next operation
+	SyncProbes int // probes taken right after Sync returned, without waiting for quiescence
+	CommitFailures int
 }
 
 type runner struct {
@@ -228,13 +234,31 @@ func (r *runner) dump() string {
 	return fmt.Sprintf("(Some (Dump %s %s %s %s))", emit.List(hdrs), emit.List(idx), head, tail)
 }
 
+// quiesce lets virtual time pass (flush retries back off, failed lookups take a microsecond)
+// and waits until every goroutine of the bubble is blocked.
+func quiesce() {
+	time.Sleep(time.Minute)
+	synctest.Wait()
+}
+
 // Run executes one generated history inside a synctest bubble.
 func Run(t *testing.T, rng *emit.Rand, cfg Config, maxOps int, gen Gen) Result {
 	var out Result
 	synctest.Test(t, func(t *testing.T) {
 		r := &runner{t: t, cfg: cfg, rng: rng, reg: vhdr.NewRegistry()}
 		r.rec = NewRecDS()
+		if cfg.FailHdrN > 0 {
+			r.rec.FailHdrFrom, r.rec.FailHdrN = cfg.FailHdrFrom, cfg.FailHdrN
+		}
 		r.ds = r.rec
+		// every failed height lookup of the datastore takes a little virtual time: the flush goroutine
+		// (advanceHead/recedeTail end in one) is then still busy when a caller continues right after
+		// Append/Sync returned, which makes "Sync returned, so everything is readable" a sharp test
+		r.rec.OnGet = func(key string, found bool) {
+			if !found {
+				time.Sleep(time.Microsecond)
+			}
+		}
 		r.chain = vhdr.Chain("a", 1, cfg.U, time.Now().UnixNano(), 1000, nil)
 		chainTerms := make([]string, len(r.chain))
 		for i, h := range r.chain {
@@ -282,11 +306,6 @@ func Run(t *testing.T, rng *emit.Rand, cfg Config, maxOps int, gen Gen) Result {
 					if err := r.s.Append(ctx, hs...); err != nil {
 						outc = "OFail"
 					}
-					if r.rng.Bool() {
-						if err := r.s.Sync(ctx); err != nil {
-							outc = "OFail"
-						}
-					}
 					sorted := sort.SliceIsSorted(op.Heights, func(a, b int) bool { return op.Heights[a] < op.Heights[b] })
 					if !sorted {
 						out.Gapped = true
@@ -312,10 +331,43 @@ func Run(t *testing.T, rng *emit.Rand, cfg Config, maxOps int, gen Gen) Result {
 					} else {
 						out.DelOK++
 					}
-				case Restart, Reopen:
+				case Restart, Reopen, StopSync:
 					out.Restarts++
 					opTerm = "IRestart"
-					if err := r.s.Stop(ctx); err != nil {
+					if op.Kind == StopSync && len(op.Heights) > 0 {
+						// Stop racing a Sync while a batch is being flushed: the flush goroutine is parked in a
+						// failed height lookup, a Sync and the Stop signal queue up behind it, then it is released
+						// (whether the loop then serves the Sync or the queue first is the runtime's random choice)
+						gate := make(chan struct{})
+						var once sync.Once
+						old := r.rec.OnGet
+						r.rec.OnGet = func(key string, found bool) {
+							if !found {
+								once.Do(func() { <-gate })
+							}
+						}
+						hs := make([]*vhdr.Header, len(op.Heights))
+						ns := make([]string, len(op.Heights))
+						for j, n := range op.Heights {
+							hs[j] = r.chain[n-1]
+							ns[j] = emit.N(n)
+						}
+						_ = r.s.Append(ctx, hs...)
+						synctest.Wait()
+						steps = append(steps, fmt.Sprintf("SStep (IAppend %s) OOk [] None", emit.List(ns)))
+						loglens = append(loglens, emit.Nat(len(r.rec.Log)))
+						descr = append(descr, "IAppend "+emit.List(ns)+" => (parked)")
+						st := r.s
+						go func() { _ = st.Sync(ctx) }()
+						stopped := make(chan error, 1)
+						go func() { stopped <- st.Stop(ctx) }()
+						synctest.Wait()
+						close(gate)
+						if err := <-stopped; err != nil {
+							outc = "OFail"
+						}
+						r.rec.OnGet = old
+					} else if err := r.s.Stop(ctx); err != nil {
 						outc = "OFail"
 					}
 					if op.Kind == Reopen {
@@ -327,12 +379,26 @@ func Run(t *testing.T, rng *emit.Rand, cfg Config, maxOps int, gen Gen) Result {
 					}
 				}
 			}()
-			synctest.Wait()
-			out.HandlerCalls += len(r.log)
+			// sometimes the next operation follows an Append immediately (no quiescence in between):
+			// the batch is then still in the writes queue when a Stop / DeleteRange / Append arrives
+			rush := op.Kind == Append && i < maxOps-1 && r.rng.Chance(30)
 			probe := "None"
-			if cfg.ProbeEvery || i == maxOps-1 || r.rng.Chance(60) {
+			if op.Kind == Append && !rush && cfg.FailHdrN == 0 && r.rng.Chance(45) {
+				// Sync, then probe at once (no quiescence): what was appended before Sync returned must be readable
+				if err := r.s.Sync(ctx); err != nil {
+					outc = "OFail"
+				}
 				probe = r.probe()
+				out.SyncProbes++
+			} else if !rush {
+				quiesce()
+				if cfg.ProbeEvery || i == maxOps-1 || r.rng.Chance(60) {
+					probe = r.probe()
+				}
+			} else {
+				out.Rushed++
 			}
+			out.HandlerCalls += len(r.log)
 			steps = append(steps, fmt.Sprintf("SStep (%s) %s %s %s", opTerm, outc, emit.List(r.log), probe))
 			loglens = append(loglens, emit.Nat(len(r.rec.Log)))
 			descr = append(descr, opTerm+" => "+outc)
@@ -345,7 +411,7 @@ func Run(t *testing.T, rng *emit.Rand, cfg Config, maxOps int, gen Gen) Result {
 		if err := r.s.Start(ctx); err != nil {
 			t.Fatal("final start:", err)
 		}
-		synctest.Wait()
+		quiesce()
 		steps = append(steps, fmt.Sprintf("SStep (IRestart) OOk [] %s", r.probe()))
 		loglens = append(loglens, emit.Nat(len(r.rec.Log)))
 		dump := r.dump()
@@ -359,6 +425,7 @@ func Run(t *testing.T, rng *emit.Rand, cfg Config, maxOps int, gen Gen) Result {
 			out.LogLen = len(r.rec.Log)
 			crashes := r.explore(cfg.Crash)
 			out.CrashPts = len(crashes)
+			out.CommitFailures = r.rec.Failed
 			out.CrashTerm = fmt.Sprintf("CCase (%s) %s %s %s", out.Term, emit.List(loglens), r.logTerm(), emit.List(crashes))
 		}
 	})
